@@ -483,6 +483,11 @@ class IterV:
         self.kind, self.parts = kind, parts
 
     def domain(self, interp, st):
+        if getattr(self, "_dom", None) is None:
+            self._dom = self._domain(interp, st)
+        return self._dom
+
+    def _domain(self, interp, st):
         if self.kind == "enumerate":
             inner = interp.iter_domain(self.parts[0], st, None)
             if inner[0] == "concrete":
